@@ -441,7 +441,17 @@ def r5_primitives(ctx):
                    expected='one push' if m in pushers else 'one pop')
 
 
+def r3_key_restored(ctx):
+    """undo restores the position key only if every state change toggles exactly the keys of what it changes, with the values actually
+    on the stacks (= C05.R1-R3): a toggle computed from a reconstructed 'previous' value is not cancelled by the pop"""
+    from . import c05
+    import_rules(ctx, 'C04.R3-key-restored', [c05.r1_placement, c05.r23_stacks],
+                 'apply followed by undo must leave the position key unchanged: the push side and the pop side have to toggle the same pair '
+                 'of keys (old top, new top) - also when the requested change is partly void (a right that is already lost)', floor=6)
+
+
 def run(ctx):
+    r3_key_restored(ctx)
     r5_primitives(ctx)
     r1_stack_balance(ctx)
     r2_mirror(ctx)
